@@ -59,6 +59,9 @@ pub enum SeedSpec {
     MuxRotated { seed: u64, k: u8 },
     /// movie header first; one sample of 1.1 to 1.6 MB between small ones
     BigSample { seed: u64 },
+    /// the everything-at-once image (even seeds) or a packager fragment stream (odd seeds) with
+    /// every box header below the top level - and moov / moof themselves - in the 64-bit form
+    All64 { seed: u64 },
 }
 
 impl SeedSpec {
@@ -84,6 +87,7 @@ impl SeedSpec {
             SeedSpec::SiblingWalk { .. } => "sibling_walk",
             SeedSpec::MuxRotated { .. } => "mux_rotated",
             SeedSpec::BigSample { .. } => "big_sample",
+            SeedSpec::All64 { .. } => "all64",
         }
     }
 }
@@ -192,6 +196,27 @@ pub fn relocate_moov_first(img: &[u8]) -> Option<Vec<u8>> {
     out.extend_from_slice(&m);
     out.extend_from_slice(&img[top[1].start..top[1].end()]);
     Some(out)
+}
+
+/// Every box with an 8-byte header, except ftyp and top-level mdat, gets the 16-byte form
+/// (size field 1 + 64-bit largesize); all enclosing sizes grow accordingly.
+pub fn all_headers_64(img: &[u8]) -> Vec<u8> {
+    let mut out = img.to_vec();
+    // innermost and last boxes first: earlier offsets stay valid, parents see their new size
+    let mut starts: Vec<usize> = walk(&out).iter().filter(|n| n.hdr == 8 && !n.is(b"ftyp") && !(n.depth == 0 && n.is(b"mdat")) && n.end() <= out.len()).map(|n| n.start).collect();
+    starts.sort_unstable_by(|a, b| b.cmp(a));
+    for st in starts {
+        let nodes = walk(&out);
+        let Some(i) = nodes.iter().position(|n| n.start == st && n.hdr == 8) else { continue };
+        let n = &nodes[i];
+        let mut h = Vec::with_capacity(16);
+        h.extend_from_slice(&1u32.to_be_bytes());
+        h.extend_from_slice(&n.typ);
+        h.extend_from_slice(&((n.size + 8) as u64).to_be_bytes());
+        let (start, parent) = (n.start, n.parent);
+        splice(&mut out, &nodes, parent, start, 8, &h);
+    }
+    out
 }
 
 /// Moves child `k` (mod the number of children) of the last `stbl` of the image to the end of
@@ -1041,6 +1066,11 @@ pub fn build(spec: &SeedSpec) -> SeedImage {
         SeedSpec::MetaAll { seed } => SeedImage { bytes: meta_all_image(*seed), init_len: None },
         SeedSpec::HopChain { seed } => SeedImage { bytes: hop_chain_image(*seed), init_len: None },
         SeedSpec::SiblingWalk { seed } => SeedImage { bytes: sibling_walk_image(*seed), init_len: None },
+        SeedSpec::All64 { seed } => {
+            let (b, l) = if seed % 2 == 0 { (meta_all_image(seed / 2), None) } else { let (b, l) = frag_image(seed / 2); (b, Some(l)) };
+            let _ = l;
+            SeedImage { bytes: all_headers_64(&b), init_len: None }
+        }
         SeedSpec::BigSample { seed } => {
             let mut r = Rng::new(*seed ^ 0xB165);
             let big = 1_100_000 + r.below(500_000) as u32;
@@ -1166,6 +1196,12 @@ mod tests {
                 if let Some(rot) = rotate_last_stbl(&base, k) {
                     assert_eq!(all_samples(&rot).expect("rotated opens"), want, "rotated seed {seed} k {k}");
                 }
+            }
+            if seed < 40 {
+                // 64-bit headers on every box change no offsets of the media data (moov last)
+                let wide = all_headers_64(&base);
+                assert_eq!(all_samples(&wide).expect("64-bit headers open"), want, "all64 seed {seed}");
+                assert!(wide.len() > base.len());
             }
             if let Some(sh) = shuffle_chunks(&base, seed) {
                 assert_eq!(all_samples(&sh).expect("shuffled opens"), want, "shuffled seed {seed}");
